@@ -211,6 +211,12 @@ def gen_session(seed):
             sess.append(["exec", rng.below(3), which, arity if rng.chance(0.6) else rng.choice([n_ for n_ in (0, 1, 2, 3) if n_ != arity])])
         else:
             sess.append(["snip", g.snippet(enabled)])
+    if rng.chance(1.0 / 30):
+        # several runs in a row die at the bottom of 70 nested fibers; fibers must work as before afterwards
+        at = rng.below(len(sess) + 1)
+        extra = [["snip", [["deepchain", j_ % 3, g.id()]]] for j_ in range(4)]
+        extra.append(["snip", [["fiber", 0, g.site(), g.site(), g.id()], ["probechain", 0, g.id()]]])
+        sess[at:at] = extra
     # closing probe: all globals, a clean try/finally and a clean try/catch must behave
     sess.append(["snip", [["probe", g.id()], ["tryfin", g.id(), g.site()], ["trycatch", g.id()], ["corelib", g.id()], ["probe", g.id()]]])
     return {"session": sess, "sites": g.sites, "mod_sites": {str(k): v for k, v in g.mod_sites.items()}}
